@@ -64,6 +64,10 @@
 
 enum class Color : std::uint8_t;
 
+#ifdef DANMAR_CPPCHECK_VERIF
+#include "verifhooks.h"
+#endif
+
 // NOLINTNEXTLINE(misc-unused-using-decls) - required for FD_ZERO
 using std::memset;
 
@@ -118,6 +122,9 @@ namespace {
 
         void writeEnd(const std::string& str) const {
             writeToPipe(CHILD_END, str);
+#ifdef DANMAR_CPPCHECK_VERIF
+            verifhooks::workerFault(true);
+#endif
         }
 
     private:
@@ -156,6 +163,9 @@ namespace {
             if (mDebug)
                 std::cout << "writeToPipe - " << static_cast<char>(type) << " - " << data << std::endl;
 
+#ifdef DANMAR_CPPCHECK_VERIF
+            verifhooks::workerFault(false);
+#endif
             {
                 const auto t = static_cast<char>(type);
                 writeToPipeInternal(type, &t, 1);
@@ -391,6 +401,11 @@ unsigned int ProcessExecutor::check()
                 if (mTimerResults)
                     timerResults.reset(new TimerResults);
 
+#ifdef DANMAR_CPPCHECK_VERIF
+                verifhooks::workerStart(iFileSettings != mFileSettings.end() ? iFileSettings->filename() : iFile->path());
+                verifhooks::schedPoint("proc.child.start", verifhooks::workerFile());
+                verifhooks::crashPoint("file-begin");
+#endif
                 PipeWriter pipewriter(pipes[1], mSettings.debugipc);
                 CppCheck fileChecker(mSettings, supprs, pipewriter, timerResults.get(), false, mExecuteCommand);
                 unsigned int resultOfCheck = 0;
@@ -402,10 +417,17 @@ unsigned int ProcessExecutor::check()
                     resultOfCheck = fileChecker.check(*iFile);
                 }
 
+#ifdef DANMAR_CPPCHECK_VERIF
+                verifhooks::schedPoint("proc.child.analysed", verifhooks::workerFile());
+                verifhooks::crashPoint("file-end");
+#endif
                 pipewriter.writeSuppr(supprs.nomsg);
 
                 pipewriter.writeTimer(timerResults.get());
 
+#ifdef DANMAR_CPPCHECK_VERIF
+                verifhooks::schedPoint("proc.child.end", verifhooks::workerFile());
+#endif
                 pipewriter.writeEnd(std::to_string(resultOfCheck));
                 std::exit(EXIT_SUCCESS);
             }
@@ -442,6 +464,9 @@ unsigned int ProcessExecutor::check()
                             name = p->second;
                         }
                         const bool readRes = handleRead(*rp, result, name);
+#ifdef DANMAR_CPPCHECK_VERIF
+                        verifhooks::schedPoint(readRes ? "proc.parent.read" : "proc.parent.eof", name);
+#endif
                         if (!readRes) {
                             std::size_t size = 0;
                             if (p != pipeFile.cend()) {
